@@ -38,6 +38,10 @@ def grammar_mutants(f):
         out.append(("cksum_digits%d" % nd, rebuild(toks[:-2] + ["10=" + "0" * (nd - 3) + ck[3:], ""])))
         out.append(("seq_digits%d" % nd, rebuild([("34=" + "7" * nd) if t.startswith("34=") else t for t in toks])))
     out.append(("tag=ab", rebuild(toks[:3] + ["ab=1"] + toks[3:])))
+    for bad in ("\xb25", "5\xb2", "\xb9", "\xb3\xb2", "\u0665".encode("utf-8").decode("latin-1")):
+        out.append(("tag=nonascii_digit", rebuild(toks[:3] + [bad + "=1"] + toks[3:])))
+        out.append(("bodylen=nonascii_digit", rebuild([toks[0], "9=" + bad] + toks[2:])))
+        out.append(("cksum=nonascii_digit", rebuild(toks[:-2] + ["10=" + (bad + "00")[:3], ""])))
     out.append(("tag=1.0", rebuild(toks[:3] + ["1.0=1"] + toks[3:])))
     out.append(("noeq", rebuild(toks[:3] + ["58"] + toks[3:])))
     out.append(("emptyfield", rebuild(toks[:3] + [""] + toks[3:])))
@@ -51,7 +55,8 @@ def grammar_mutants(f):
 
 
 def byte_mutants(f, full):
-    repl = list(range(256)) if full else [0, 1, 0x20, 0x2b, 0x30, 0x31, 0x39, 0x3d, 0x38, 0x5f, 0x7c, 0xff]
+    # 0xB2 0xB3 0xB9: latin-1 superscript digits (str.isdigit() is True for them, int() refuses them)
+    repl = list(range(256)) if full else [0, 1, 0x20, 0x2b, 0x30, 0x31, 0x39, 0x3d, 0x38, 0x5f, 0x7c, 0xff, 0xb2, 0xb9]
     for i in range(len(f)):
         yield ("del%d" % i, f[:i] + f[i + 1:])
         for r in repl:
